@@ -3,16 +3,6 @@ import Pyxv.Proofs.C03
 namespace Pyxv.Refs
 open Pyxv
 
-/-- What a survey accepted by `Survey.validate` guarantees about the list of its elements' chains:
-names are XML names (non-empty, no `/`); every ancestor of an element is an element (with the kinds
-recorded in the chain); sibling names are unique, so a path belongs to one element; the survey root is
-not a repeat. -/
-structure Valid (els : List Chain) : Prop where
-  good : ∀ c ∈ els, GoodNames c.path
-  prefixClosed : ∀ c ∈ els, ∀ i, i < c.length → c.take (i + 1) ∈ els
-  uniquePath : ∀ c ∈ els, ∀ d ∈ els, c.path = d.path → c = d
-  rootNotRep : ∀ c ∈ els, Chain.isRep (c.take 1) = false
-
 theorem Valid.prefix {els : List Chain} (hv : Valid els) (c : Chain) (hc : c ∈ els) (i : Nat) (h0 : 0 < i)
     (hi : i ≤ c.length) : c.take i ∈ els := by
   have := hv.prefixClosed c hc (i - 1) (by omega)
